@@ -23,6 +23,7 @@ TScan ==
 TCell ==
   /\ IsEv("cell") /\ scan # "none" /\ Ev.family = fam
   /\ CellOk(KindOf(fam), Ev.out)                      \* never a crash, a timeout, or a wrong kind of failure
+  /\ DepthBound(fam, Ev)                              \* a value at depth d needs a limit of at least d
   /\ IF scan = "row" THEN RowStep(prev, Ev) ELSE ColStep(prev, Ev)
   /\ (prev.out # "none" => IF scan = "row" THEN Ev.s > prev.s /\ Ev.d = prev.d ELSE Ev.d > prev.d /\ Ev.s = prev.s)
   /\ prev' = [out |-> Ev.out, val |-> Ev.val, d |-> Ev.d, s |-> Ev.s]
